@@ -32,6 +32,9 @@ def run(rep):
     rep.guard(c05.e7, rep, w)     # a failed assignment to an undeclared global defines nothing for later snippets
     rep.guard(c05.e12, rep, w)    # compiled code outlives the run that compiled it: a chunk (or any shared immutable value) keeps no reader-updated state, so what a later run is told does not depend on the queries of an earlier one
     rep.guard(c14.m5, rep, w)     # a failed run must not drop modules from the registry: functions they handed out keep pointing at them
+    rep.guard(n11, rep, w)
+    import c09
+    rep.guard(c09.f12, rep, w, 'C15')   # a later snippet runs on a fiber that holds nothing of an earlier one (handlers, open upvalues, a parked return)
 
 
 def vm_field_writes(w, f):
@@ -528,3 +531,28 @@ def n10(rep, w, prop='C15'):
                     % (f.path, sorted(names), sorted(x for x in kept if 'main' in x) or sorted(kept)[:3]), f.loc(t.get('sp')))
     if n == 0:
         raise Broken(prop, 'anchor', 'the start-up compilation of the core source was not found in the class store')
+
+
+def n11(rep, w, prop='C15'):
+    """a snippet runs in the module its compiled function names (function.module_path, looked up - or created - in the registry by Vm::module),
+    whatever an earlier run left behind: Vm.active_module follows the frame on top of the stack, and a run that died inside code of an imported
+    module leaves it pointing there. The script closure execute() builds therefore takes its module from the registry look-up, never from
+    that field."""
+    r = rep.rule('N11', 'execute() takes the module of the script closure from the registry (Vm::module of the function\'s path), not from the active module an earlier run left', floor=1)
+    f = w.require_fn(VM + 'execute', prop)
+    org = origins(f)
+    n = 0
+    for bi, t in f.calls():
+        nm = callee_name(t) or ''
+        if not (nm.endswith('new_root_obj_closure') or nm.endswith('ObjClosure::new')) or len(t['args']) < 2:
+            continue
+        n += 1
+        pl = op_place(t['args'][-1])
+        roots = org.get(pl['l'], ()) if pl is not None else ()
+        from_registry = bool(roots) and all(q[0][0] == 'call' and q[0][2] == VM + 'module' for q in roots)
+        left = sorted({'Vm.' + '.'.join(x for x in q[1:] if x != '*' and not x.startswith('@')) for q in roots if q[0][0] == 'arg'})
+        r.check(from_registry, 'execute: the script closure\'s module comes from Vm::module',
+                'execute() builds the script closure in %s instead of the module its function names: after a run that ended inside another module\'s code, later '
+                'snippets read and define their globals there' % (left or 'a module not looked up in the registry'), f.loc(t.get('sp')))
+    if n == 0:
+        raise Broken(prop, 'anchor', 'execute: construction of the script closure not found')
